@@ -1,11 +1,118 @@
 (* C18 - Workflow tasks run once, after everything they depend on, under every
    schedule (tools/flow).  This file contains only statements, closed by [exact],
-   and Print Assumptions. *)
-From Verif Require Import Flow.Model Flow.CycleProofs.
-From Coq Require Import List Bool Arith.
+   and Print Assumptions.
+
+   [run w tr = Some s]: the label sequence tr (Dispatch t | Complete t ok | Cancel,
+   completions and their outcomes chosen by the environment) is an execution of
+   the controller model on workflow w, ending in state s.  All theorems quantify
+   over ALL executions. *)
+From Verif Require Import Flow.Model Flow.CycleProofs Flow.Spec Flow.Ops Flow.Invariant Flow.Proofs Flow.Examples.
+From Coq Require Import List Bool Arith Permutation.
 Import ListNotations.
 
-(* cycle.go: checkCycle reports an error iff the dependency graph has a cycle *)
+(* A task starts only after every task it refers to (late references included) has
+   completed successfully earlier in the execution, and those results are in the
+   configuration the task sees: t.v is looked up in a c.inst that contains ALL
+   results received so far. *)
+Theorem C18_start_after_deps : forall w, wf_closed w ->
+  forall tr1 t tr2 s, run w (tr1 ++ Dispatch t :: tr2) = Some s ->
+  exists s1 s2, run w tr1 = Some s1 /\ step w s1 (Dispatch t) = Some s2 /\
+    views s2 = (t, results s1) :: views s1 /\ view_of s2 t = results s1 /\
+    forall d a, In (d, a) (deps w t) -> d <> t ->
+      In (Complete d true) tr1 /\ In d (view_of s2 t).
+Proof. exact start_after_deps. Qed.
+Print Assumptions C18_start_after_deps.
+
+(* Every task is dispatched at most once and completes at most once. *)
+Theorem C18_at_most_once : forall w tr s, run w tr = Some s ->
+  forall x, count (Dispatch x) tr <= 1 /\
+            count (Complete x true) tr + count (Complete x false) tr <= 1.
+Proof. exact at_most_once. Qed.
+Print Assumptions C18_at_most_once.
+
+Theorem C18_complete_after_dispatch : forall w tr1 x ok tr2 s,
+  run w (tr1 ++ Complete x ok :: tr2) = Some s -> In (Dispatch x) tr1.
+Proof. exact complete_after_dispatch. Qed.
+Print Assumptions C18_complete_after_dispatch.
+
+(* Liveness: in an acyclic workflow with no failure and no cancellation, under any
+   completion order, no error is recorded, the measure
+   2 * (tasks not started) + (tasks running) drops by one with every event, and a
+   state is never stuck before every task has been dispatched exactly once and
+   has completed: every maximal execution has exactly 2 * |w| events and runs all
+   tasks. *)
+Theorem C18_all_run_when_acyclic_ok : forall w, wf_known w -> wf_trig w -> acyclic w ->
+  forall tr s, run w tr = Some s -> all_ok tr ->
+  stop s = None /\
+  length tr + measure w s = 2 * length w /\
+  ((exists x, step w s (Dispatch x) <> None) \/
+   (exists x, step w s (Complete x true) <> None) \/
+   (length tr = 2 * length w /\
+    forall x, x < length w ->
+      In x (results s) /\ count (Dispatch x) tr = 1 /\ count (Complete x true) tr = 1)).
+Proof. exact all_run_when_acyclic_ok. Qed.
+Print Assumptions C18_all_run_when_acyclic_ok.
+
+(* the decreasing measure, step by step *)
+Theorem C18_measure_decreases : forall w s l s', Inv w s -> step w s l = Some s' ->
+  is_fail_or_cancel l = false -> measure w s = S (measure w s').
+Proof. exact measure_step. Qed.
+Print Assumptions C18_measure_decreases.
+
+(* A failure or a cancellation ends the execution: no event follows. *)
+Theorem C18_nothing_after_failure : forall w tr1 l tr2 s,
+  run w (tr1 ++ l :: tr2) = Some s -> is_fail_or_cancel l = true -> tr2 = [].
+Proof. exact nothing_after_failure. Qed.
+Print Assumptions C18_nothing_after_failure.
+
+(* A task that transitively depends on a failed task is never started - neither
+   before nor after the failure. *)
+Theorem C18_failure_blocks_dependants : forall w, wf_closed w ->
+  forall tr s d x, run w tr = Some s -> In (Complete d false) tr ->
+  depends_on w x d -> ~ In (Dispatch x) tr.
+Proof. exact failure_blocks_dependants. Qed.
+Print Assumptions C18_failure_blocks_dependants.
+
+(* No deadlock, for EVERY workflow (cyclic ones included): whenever nothing is
+   Ready or Running and no error is recorded, nothing is Waiting; the "deadlock"
+   branch of runLoop is unreachable. *)
+Theorem C18_no_deadlock : forall w, wf_known w ->
+  forall tr s, run w tr = Some s -> stop s = None ->
+  any_ready s = false -> any_running s = false -> any_waiting s = false.
+Proof. exact no_deadlock. Qed.
+Print Assumptions C18_no_deadlock.
+
+Theorem C18_never_deadlock_outcome : forall w, wf_known w ->
+  forall tr s, run w tr = Some s -> outcome_of s <> OutDeadlock.
+Proof. exact never_deadlock_outcome. Qed.
+Print Assumptions C18_never_deadlock_outcome.
+
+(* no_deadlock_acyclic, as named in the plan: an acyclic workflow neither
+   deadlocks nor reports an error *)
+Theorem C18_no_deadlock_acyclic : forall w, wf_known w -> wf_trig w ->
+  forall tr s, run w tr = Some s -> stop s = None ->
+  (exists x, step w s (Dispatch x) <> None) \/
+  (exists x, step w s (Complete x true) <> None) \/
+  (measure w s = 0 /\
+   forall x, x < length w ->
+     In x (results s) /\ count (Dispatch x) tr = 1 /\ count (Complete x true) tr = 1).
+Proof. exact progress. Qed.
+Print Assumptions C18_no_deadlock_acyclic.
+
+Theorem C18_acyclic_never_stops : forall w, wf_known w -> acyclic w ->
+  forall tr s, run w tr = Some s -> all_ok tr -> stop s = None.
+Proof. exact acyclic_never_stops. Qed.
+Print Assumptions C18_acyclic_never_stops.
+
+(* A cycle among the tasks that exist initially is reported and nothing runs. *)
+Theorem C18_cycle_reported_initially : forall w, wf_known w ->
+  has_cycle (Dp (init w)) (known (init w)) ->
+  stop (init w) = Some StopCycle /\ forall tr s, run w tr = Some s -> tr = [].
+Proof. exact cycle_reported_initially. Qed.
+Print Assumptions C18_cycle_reported_initially.
+
+(* cycle.go: checkCycle reports an error iff the dependency graph has a cycle;
+   the checker needs no more fuel than there are tasks. *)
 Theorem C18_check_cycle_correct : forall dp ts, closed dp ts ->
   (check_cycle dp ts = Some true /\ has_cycle dp ts) \/
   (check_cycle dp ts = Some false /\ ~ has_cycle dp ts).
@@ -16,3 +123,66 @@ Theorem C18_check_cycle_fuel_sufficient : forall dp ts f,
   closed dp ts -> length ts <= f -> check_cycle_from dp f ts <> None.
 Proof. exact check_cycle_fuel_sufficient. Qed.
 Print Assumptions C18_check_cycle_fuel_sufficient.
+
+(* The results merged into the configuration are exactly the successful
+   completions, each once; two executions with the same successful completions
+   merge the same multiset, so any order-insensitive merge gives the same final
+   configuration. *)
+Theorem C18_final_config_order_free : forall w tr1 tr2 s1 s2,
+  run w tr1 = Some s1 -> run w tr2 = Some s2 ->
+  (forall x, In (Complete x true) tr1 <-> In (Complete x true) tr2) ->
+  Permutation (results s1) (results s2) /\
+  forall (C : Type) (merge : C -> nat -> C) (c0 : C),
+    (forall c a b, merge (merge c a) b = merge (merge c b) a) ->
+    fold_left merge (results s1) c0 = fold_left merge (results s2) c0.
+Proof. exact final_config_order_free. Qed.
+Print Assumptions C18_final_config_order_free.
+
+Theorem C18_final_config_complete_runs : forall w, wf_known w -> wf_trig w -> acyclic w ->
+  forall tr1 tr2 s1 s2,
+  run w tr1 = Some s1 -> run w tr2 = Some s2 -> all_ok tr1 -> all_ok tr2 ->
+  outcome_of s1 = OutOk -> outcome_of s2 = OutOk ->
+  Permutation (results s1) (all_tasks w) /\ Permutation (results s1) (results s2).
+Proof. exact final_config_complete_runs. Qed.
+Print Assumptions C18_final_config_complete_runs.
+
+(* Task.Dependencies() of a task that has not started = the visible ground-truth references *)
+Theorem C18_deps_are_ground_truth : forall w tr s, run w tr = Some s ->
+  forall x, In x (known s) -> le_readyb (St s x) = true ->
+  forall d, In d (Dp s x) <-> exists a, In (d, a) (deps w x) /\ d <> x /\ act (results s) a = true.
+Proof. exact deps_are_ground_truth. Qed.
+Print Assumptions C18_deps_are_ground_truth.
+
+(* the invariant behind all of the above *)
+Theorem C18_invariant : forall w tr s, run w tr = Some s -> Inv w s.
+Proof. exact run_inv. Qed.
+Print Assumptions C18_invariant.
+
+(* ---- non-vacuity ---- *)
+Example C18_ex_hypotheses_met : wf_known ex_w /\ wf_trig ex_w /\ wf_closed ex_w /\ acyclic ex_w.
+Proof. exact ex_w_wf. Qed.
+Print Assumptions C18_ex_hypotheses_met.
+
+Example C18_ex_two_orders :
+  summary ex_w ex_tr1 = Some (OutOk, [0; 1; 2; 4; 3]) /\
+  summary ex_w ex_tr2 = Some (OutOk, [0; 2; 1; 4; 3]).
+Proof. exact (conj ex_run1 ex_run2). Qed.
+Print Assumptions C18_ex_two_orders.
+
+Example C18_ex_cycle_reported :
+  summary ex_cyc [] = Some (OutCycle, []) /\ summary ex_cyc [Dispatch 0] = None.
+Proof. exact ex_cycle_reported. Qed.
+Print Assumptions C18_ex_cycle_reported.
+
+Example C18_ex_late_cycle_reported :
+  summary ex_latecyc [Dispatch 0] = Some (OutUnfinished, []) /\
+  summary ex_latecyc [Dispatch 0; Complete 0 true] = Some (OutCycle, [0]).
+Proof. exact ex_late_cycle_reported. Qed.
+Print Assumptions C18_ex_late_cycle_reported.
+
+Example C18_start_after_deps_needs_closed :
+  wf_known ex_selfgroup /\ wf_closed_b ex_selfgroup = false /\
+  summary ex_selfgroup [Dispatch 0] = Some (OutUnfinished, []) /\
+  In (1, Some 0) (deps ex_selfgroup 0).
+Proof. exact start_after_deps_needs_closed. Qed.
+Print Assumptions C18_start_after_deps_needs_closed.
